@@ -216,7 +216,8 @@ def regNameTok : Tok → Bool
   | .esc _ _ => true
   | .chr c => regNameChar c
 
-/-- remove one trailing `"\n"` (Python's `$` also matches just before a final newline) -/
+/-- remove one trailing `"\n"` (Python's `$` also matches just before a final newline); still needed
+for `_IPV4_RE` and `_TARGET_RE`, which end in `$` — `_HOST_PORT_RE` and `_IPV6_ADDRZ_RE` end in `\Z` -/
 def stripNl (s : Str) : Str := if s.getLast? = some 10 then s.dropLast else s
 
 def decNat (ds : Str) : Nat := ds.foldl (fun n d => n * 10 + (d - 48)) 0
@@ -227,12 +228,12 @@ def portCapture (body : Str) : Option Str :=
   if d.isEmpty then (if body.isEmpty then some [] else some [48])
   else if d.all isDigitC && d.length ≤ 5 then some d else none
 
-/-- `(?::0*?(|0|[1-9][0-9]{0,4}))?$`: `none` no match; `some none` group absent -/
+/-- `(?::0*?(|0|[1-9][0-9]{0,4}))?\Z`: `none` no match; `some none` group absent.  `\Z` is the very
+end of the text (no final newline is tolerated) -/
 def portPart (r : Str) : Option (Option Str) :=
   match r with
   | [] => some none
-  | [10] => some none
-  | 58 :: b => (portCapture (stripNl b)).map some
+  | 58 :: b => (portCapture b).map some
   | _ => none
 
 def isH16 (p : Str) : Bool := 1 ≤ p.length && p.length ≤ 4 && p.all isHexC
@@ -314,13 +315,13 @@ def hostPortRe (hp : Str) : Option (Str × Option Str) :=
 
 /-! ## `_normalize_host` -/
 
-/-- `_IPV6_ADDRZ_RE.match(host)`: `^\[…\]$` (a final newline is tolerated by `$`) -/
+/-- `_IPV6_ADDRZ_RE.match(host)`: `^\[…\]\Z` (the whole text) -/
 def ipv6AddrzMatch (host : Str) : Bool :=
-  match stripNl host with
+  match host with
   | 91 :: t => t.getLast? = some 93 && !(t.dropLast.contains 93) && bracketOk t.dropLast
   | _ => false
 
-/-- `_IPV4_RE.match(host)` (`$` again) -/
+/-- `_IPV4_RE.match(host)` (ends in `$`: one final newline is tolerated) -/
 def ipv4Match (host : Str) : Bool := isIPv4 (stripNl host)
 
 def pct25 : Str := [37, 50, 53]
@@ -431,7 +432,10 @@ def parseAuthority (normalizeUri : Bool) (authority : Option Str) :
       let port := match p with
         | some d => if d.isEmpty then none else some d
         | none => none
-      .ok (auth, some h, port)
+      -- `if auth is None and port is None: host = host or None` (an authority made of delimiters
+      -- only, `"//:"` / `"//@"`, is reported like the empty authority)
+      let host := if auth.isNone && port.isNone && h.isEmpty then none else some h
+      .ok (auth, host, port)
 
 /-- `int(port)` and the range check -/
 def portToInt (port : Option Str) : Except Exc (Option Nat) :=
